@@ -110,6 +110,17 @@ func rembWire(r *Rng, exp, mant int, nss int) []byte {
 	return b
 }
 
+// shardIdx/shardN: the exhaustive parts of the thorough tier are partitioned over the shards of one run
+var shardIdx, shardN = 0, 1
+
+var ownCtr int
+
+// own: is the next item of an exhaustive enumeration this shard's?
+func own() bool {
+	ownCtr++
+	return ownCtr%shardN == shardIdx
+}
+
 func genOps(prop string, r *Rng, n int, tier string, emit func(string)) {
 	thorough := tier == "thorough"
 	switch prop {
@@ -194,6 +205,11 @@ func genOps(prop string, r *Rng, n int, tier string, emit func(string)) {
 			for _, sz := range []int{1200, 1500, 9000, 65532, 65536, 65540, 131072, 262140} {
 				for _, k := range []string{"TWCC", "CCFB", "SDES", "XR", "SR", "FIR", "NACK", "SLI", "RAW", "APP"} {
 					pf := map[string][2]int{"TWCC": {205, 15}, "CCFB": {205, 11}, "SDES": {202, 1}, "XR": {207, 0}, "SR": {200, 0}, "FIR": {206, 4}, "NACK": {205, 1}, "SLI": {205, 2}, "RAW": {199, 0}, "APP": {204, 0}}[k]
+					// the model's list-indexing decoders are quadratic: the entry-walking kinds stop at the 16-bit boundary
+					slow := k == "TWCC" || k == "CCFB" || k == "XR" || k == "FIR" || k == "NACK" || k == "SLI"
+					if (slow && sz > 65540) || !own() {
+						continue
+					}
 					b := behindHeader(r, pf[0], pf[1], sz-4)
 					binary.BigEndian.PutUint16(b[2:], uint16(sz/4-1))
 					emit("dec." + k + " " + hx(b))
@@ -231,11 +247,17 @@ func genOps(prop string, r *Rng, n int, tier string, emit func(string)) {
 				emit("reenc " + hx(f))
 			}
 		}
+		if prop == "C09" && !thorough {
+			pf := [][2]int{{206, 4}, {205, 1}}[r.Intn(2)]
+			b := behindHeader(r, pf[0], pf[1], 65540-4)
+			binary.BigEndian.PutUint16(b[2:], uint16(65540/4-1))
+			emit("reenc " + hx(b))
+		}
 		if prop == "C02" {
 			for _, k := range bigKinds {
 				// the model's CCFB/XR decoders index lists (quadratic on 100 KiB inputs): thorough tier only
 				slow := k == "CCFB" || k == "XR"
-				if thorough || (!slow && r.Chance(1, 3)) {
+				if (thorough && own()) || (!thorough && !slow && r.Chance(1, 3)) {
 					p := genBig(r, k)
 					emit(opWith("rto", p))
 					if !slow {
@@ -246,7 +268,10 @@ func genOps(prop string, r *Rng, n int, tier string, emit func(string)) {
 		}
 		if thorough {
 			for _, sz := range []int{65536, 65540, 131072, 262140} {
-				for _, pf := range [][2]int{{205, 11}, {207, 0}, {202, 0}, {200, 0}, {201, 0}, {204, 0}, {199, 0}} {
+				for _, pf := range [][2]int{{205, 11}, {207, 0}, {202, 0}, {200, 0}, {201, 0}, {204, 0}, {199, 0}, {206, 4}, {205, 1}} {
+					if ((pf[0] == 205 || pf[0] == 207 || pf[0] == 206) && sz > 65540) || !own() {
+						continue
+					}
 					b := behindHeader(r, pf[0], pf[1], sz-4)
 					binary.BigEndian.PutUint16(b[2:], uint16(sz/4-1))
 					for j := 8; j < len(b)-4 && pf[0] != 204; j++ {
@@ -273,6 +298,23 @@ func genOps(prop string, r *Rng, n int, tier string, emit func(string)) {
 			} else {
 				emit(genVariantOp(r))
 			}
+		}
+		if thorough {
+			for w := 0; w < 3; w++ {
+				if own() {
+					emit(genBigDecvOp(r, w))
+				}
+			}
+		} else {
+			emit(genBigDecvOp(r, 1)) // FIR: the cheapest of the three in the model's list-indexing decoder
+		}
+		{ // an APP packet of 262144 octets: length field 0xFFFF
+			v := &rtcp.ApplicationDefined{SubType: uint8(r.Bits(5, 5)), SSRC: uint32(r.U64()), Name: string(r.Bytes(4)), Data: r.Bytes(262144 - 12)}
+			b := hdrBytes(false, int(v.SubType), 204, 0)
+			b = binary.BigEndian.AppendUint32(b, v.SSRC)
+			b = append(b, v.Name...)
+			b = append(b, v.Data...)
+			emit("decv.APP " + hx(finish(b)) + " | " + bodyTokens(v))
 		}
 	case "C05":
 		for i := 0; i < n; i++ {
@@ -351,6 +393,9 @@ func genOps(prop string, r *Rng, n int, tier string, emit func(string)) {
 			step = 13
 		}
 		for row := r.Intn(step); row < 8192; row += step {
+			if thorough && !own() {
+				continue
+			}
 			pt, cnt := row/32, row%32
 			for v := 0; v < 3; v++ {
 				b := behindHeader(r, pt, cnt, 4*r.Pick(0, 1, 2, 3, 4, 5, 6, 7))
@@ -454,6 +499,9 @@ func genOps(prop string, r *Rng, n int, tier string, emit func(string)) {
 		}
 		if thorough {
 			for bm := 0; bm < 65536; bm++ {
+				if !own() {
+					continue
+				}
 				emit(fmt.Sprintf("plist %d %d", r.Pick(0, 1, 65535, 65520, 32768, int(r.Bits(16, 16))), bm))
 			}
 		}
@@ -490,6 +538,9 @@ func genOps(prop string, r *Rng, n int, tier string, emit func(string)) {
 		if thorough {
 			for exp := 0; exp < 64; exp++ {
 				for mant := 0; mant < 1<<18; mant += 1 + r.Intn(3) {
+					if !own() {
+						continue
+					}
 					emit("dec.REMB " + hx(rembWire(r, exp, mant, 0)))
 				}
 			}
@@ -588,6 +639,9 @@ func genOps(prop string, r *Rng, n int, tier string, emit func(string)) {
 		}
 		if thorough {
 			for w := 0; w < 65536; w++ {
+				if !own() {
+					continue
+				}
 				b := []byte{byte(w >> 8), byte(w)}
 				emit("dec.RLC " + hx(b))
 				emit("dec.SVC " + hx(b))
@@ -632,6 +686,9 @@ func genOps(prop string, r *Rng, n int, tier string, emit func(string)) {
 			step = 1
 		}
 		for c := 0; c < 65536; c += step {
+			if thorough && !own() {
+				continue
+			}
 			emit(fmt.Sprintf("enumstr.Chunk %d", c))
 		}
 	case "C18":
